@@ -317,12 +317,11 @@ def check_fused(E, label, a, f, trees, kind):
         if sub != got:
             ctx.violation("leg-unfuse_leg-vs-unfuse_legs", f"{label}: Leg.unfuse_leg() of leg {i} gives {sub}, unfuse_legs gives {got}", E.sample(label))
         ctx.count("leg_unfuse_leg_checks")
-        if True:
-            import yastn
-            back = tuple(yastn.undo_leg_product(yastn.leg_product(*sub)))
-            if back != sub:
-                ctx.violation("leg_product-roundtrip", f"{label}: undo_leg_product(leg_product(*legs)) != legs for {sub}", E.sample(label))
-            ctx.count("leg_product_roundtrips")
+        import yastn
+        back = tuple(yastn.undo_leg_product(yastn.leg_product(*sub)))
+        if back != sub:
+            ctx.violation("leg_product-roundtrip", f"{label}: undo_leg_product(leg_product(*legs)) != legs for {sub}", E.sample(label))
+        ctx.count("leg_product_roundtrips")
     ctx.count("fused_tensors_checked")
     return True
 
@@ -1097,8 +1096,6 @@ def case_reject(E):
         common = set(a.blocks) & set(b.blocks)
         if not any(any(dict(legs[i].sectors)[k[i]] != dict(legs_b[i].sectors)[k[i]] for i in gl) for k in common):
             raise CaseSkip
-    if cls in ("trees", "mode") and not (a.blocks and b.blocks):
-        pass   # structure alone decides
     E.operands = [a, b]
     E.info = {"class": cls, "trees_a": repr(trees), "trees_b": repr(trees_b), "target_a": target[0], "target_b": target_b[0], "leg": g,
               "where": where}
